@@ -26,7 +26,7 @@ def _(self: Ref['mqtt.client.pubsubs.MQTTProtocol'], dup: bool):
     # entries that were in flight are untouched; new ones are driven by a fresh timer
     ensures(implies(old(alarms_set(self)), alarms_set(self)))
     ensures(same_containers(self))
-    ensures(unchanged(self._pingReq.alarm))
+    ensures(unchanged(self._pingReq.alarm) and conn_untouched(self))
     # the other windows are not touched
     ensures(forall(lambda k: contains(R(self), k) == old(contains(R(self), k)) and R(self)[k] == old(R(self)[k])))
     ensures(forall(lambda k: contains(S(self), k) == old(contains(S(self), k)) and S(self)[k] == old(S(self)[k])))
@@ -50,7 +50,7 @@ def _():
     invariant(len(W(self)) <= old(len(W(self))) or len(W(self)) <= self._window)
     invariant(implies(old(alarms_set(self)), alarms_set(self)))
     invariant(same_containers(self))
-    invariant(unchanged(self._pingReq.alarm))
+    invariant(unchanged(self._pingReq.alarm) and conn_untouched(self))
     invariant(forall(lambda k: contains(R(self), k) == old(contains(R(self), k)) and R(self)[k] == old(R(self)[k])))
     invariant(forall(lambda k: contains(S(self), k) == old(contains(S(self), k)) and S(self)[k] == old(S(self)[k])))
     invariant(forall(lambda k: contains(U(self), k) == old(contains(U(self), k)) and U(self)[k] == old(U(self)[k])))
@@ -62,7 +62,7 @@ def _():
 @contract('mqtt.client.pubsubs.MQTTProtocol.handlePUBACK', props=['C05', 'C10', 'C16', 'C13'])
 def _(self: Ref['mqtt.client.pubsubs.MQTTProtocol'], response: Ref['mqtt.pdu.PUBACK']):
     requires(is_obj(self.addr))
-    requires(live(self))
+    requires(live(self) and ping_ok(self))
     requires(is_int(response.msgId))
     id = as_int(response.msgId)
     hit = contains(W(self), id)
@@ -70,6 +70,7 @@ def _(self: Ref['mqtt.client.pubsubs.MQTTProtocol'], response: Ref['mqtt.pdu.PUB
     al = as_ref(W(self)[id].alarm)
     modifies(all_but(KEEP))
     ensures(live(self))
+    ensures(ping_untouched_by_handler(self))
     # the Deferred of that publish() fires with the identifier it exposes; its timer is cancelled
     ensures(implies(hit, req.deferred.d_fired and req.deferred.d_ok and req.deferred.d_val == id
                     and is_int(al.t_status) and al.t_status == 1))
@@ -82,7 +83,7 @@ def _(self: Ref['mqtt.client.pubsubs.MQTTProtocol'], response: Ref['mqtt.pdu.PUB
 @contract('mqtt.client.pubsubs.MQTTProtocol.handlePUBACK', name='foreign-id', callsite=False, props=['C05', 'C16'])
 def _(self: Ref['mqtt.client.pubsubs.MQTTProtocol'], response: Ref['mqtt.pdu.PUBACK']):
     requires(is_obj(self.addr))
-    requires(live(self))
+    requires(live(self) and ping_ok(self))
     requires(is_int(response.msgId))
     requires(not contains(W(self), response.msgId))
     modifies()
@@ -92,13 +93,14 @@ def _(self: Ref['mqtt.client.pubsubs.MQTTProtocol'], response: Ref['mqtt.pdu.PUB
 @contract('mqtt.client.pubsubs.MQTTProtocol.handlePUBREC', props=['C05', 'C09', 'C16', 'C13', 'C02', 'C18'])
 def _(self: Ref['mqtt.client.pubsubs.MQTTProtocol'], response: Ref['mqtt.pdu.PUBREC']):
     requires(is_obj(self.addr))
-    requires(live(self))
+    requires(live(self) and ping_ok(self))
     requires(is_int(response.msgId) and 0 <= response.msgId <= 65535)
     id = as_int(response.msgId)
     hit = contains(W(self), id)
     req = W(self)[id]
     modifies(all_but(KEEP))
     ensures(live(self))
+    ensures(ping_untouched_by_handler(self))
     # PUBREL is written only in answer to a PUBREC for an identifier in flight, and then exactly one
     ensures(implies(not hit, out(self) == old(out(self)) and R(self) == old(R(self))))
     ensures(implies(hit, out(self) == old(out(self)) + lb(sPUBREL(id))))
@@ -111,7 +113,7 @@ def _(self: Ref['mqtt.client.pubsubs.MQTTProtocol'], response: Ref['mqtt.pdu.PUB
 @contract('mqtt.client.pubsubs.MQTTProtocol.handlePUBREC', name='foreign-id', callsite=False, props=['C05', 'C09', 'C16'])
 def _(self: Ref['mqtt.client.pubsubs.MQTTProtocol'], response: Ref['mqtt.pdu.PUBREC']):
     requires(is_obj(self.addr))
-    requires(live(self))
+    requires(live(self) and ping_ok(self))
     requires(is_int(response.msgId))
     requires(not contains(W(self), response.msgId))
     modifies()
@@ -121,7 +123,7 @@ def _(self: Ref['mqtt.client.pubsubs.MQTTProtocol'], response: Ref['mqtt.pdu.PUB
 @contract('mqtt.client.pubsubs.MQTTProtocol.handlePUBCOMP', props=['C05', 'C09', 'C10', 'C16', 'C13'])
 def _(self: Ref['mqtt.client.pubsubs.MQTTProtocol'], response: Ref['mqtt.pdu.PUBCOMP']):
     requires(is_obj(self.addr))
-    requires(live(self))
+    requires(live(self) and ping_ok(self))
     requires(is_int(response.msgId) or is_none(response.msgId))
     id = as_int(response.msgId)
     hit = is_int(response.msgId) and contains(R(self), id)
@@ -129,6 +131,7 @@ def _(self: Ref['mqtt.client.pubsubs.MQTTProtocol'], response: Ref['mqtt.pdu.PUB
     al = as_ref(R(self)[id].alarm)
     modifies(all_but(KEEP))
     ensures(live(self))
+    ensures(ping_untouched_by_handler(self))
     ensures(implies(hit, not contains(R(self), id) and rep.deferred.d_fired and rep.deferred.d_ok and rep.deferred.d_val == id
                     and is_int(al.t_status) and al.t_status == 1))
     ensures(implies(not hit, out(self) == old(out(self))))
@@ -138,7 +141,7 @@ def _(self: Ref['mqtt.client.pubsubs.MQTTProtocol'], response: Ref['mqtt.pdu.PUB
 @contract('mqtt.client.pubsubs.MQTTProtocol.handlePUBCOMP', name='foreign-id', callsite=False, props=['C05', 'C09', 'C16'])
 def _(self: Ref['mqtt.client.pubsubs.MQTTProtocol'], response: Ref['mqtt.pdu.PUBCOMP']):
     requires(is_obj(self.addr))
-    requires(live(self))
+    requires(live(self) and ping_ok(self))
     requires(is_int(response.msgId))
     requires(not contains(R(self), response.msgId))
     modifies()
